@@ -175,6 +175,159 @@ theorem expand_agree (lit : Char → List Char) (s : List Char) :
           simp only [hna, if_false]
           exact ih (some (c :: p)) v hl' h
 
+
+/-! ## attribute-value and line-end normalisation: the reader after fix ddd0f34 vs XML 1.0 -/
+
+/-- 3.3.3 on one literal character -/
+def wsMap (c : Char) : Char := if c = '\t' ∨ c = '\n' ∨ c = '\r' then ' ' else c
+
+theorem nE_crlf (r : List Char) : normalizeEol ('\r' :: '\n' :: r) = '\n' :: normalizeEol r :=
+  normalizeEol.eq_1 r
+theorem nE_cr (r : List Char) (h : ∀ r', r ≠ '\n' :: r') : normalizeEol ('\r' :: r) = '\n' :: normalizeEol r :=
+  normalizeEol.eq_2 r (fun r' e => h r' e)
+theorem nE_other (c : Char) (r : List Char) (h : c ≠ '\r') : normalizeEol (c :: r) = c :: normalizeEol r :=
+  normalizeEol.eq_3 c r (fun _ e _ => h e) h
+
+theorem attrNorm_eq (s : List Char) : attrNorm s = (normalizeEol s).map wsMap := by
+  fun_induction attrNorm s with
+  | case1 => rfl
+  | case2 r ih => rw [nE_crlf]; simp [wsMap, ih]
+  | case3 c r hne ih =>
+    by_cases hc : c = '\r'
+    · subst hc
+      rw [nE_cr r (fun r' e => hne r' rfl e)]; simp [wsMap, ih]
+    · rw [nE_other c r hc]; simp only [List.map_cons, ih, wsMap]
+
+theorem normEol_eq (s : List Char) : Umya.Xml.normEol s = normalizeEol s := by
+  fun_induction Umya.Xml.normEol s with
+  | case1 => rfl
+  | case2 r ih => rw [nE_crlf, ih]
+  | case3 c r hne ih =>
+    by_cases hc : c = '\r'
+    · subst hc
+      rw [nE_cr r (fun r' e => hne r' rfl e)]; simp [ih]
+    · rw [nE_other c r hc]; simp [hc, ih]
+
+theorem foldS_some_hex (radix : Nat) (ds : List Char) :
+    ∀ (acc : Option Nat) (n : Nat), ds.foldl (stepS radix) acc = some n →
+      ∀ c ∈ ds, Umya.Spec.Xml.hexVal c ≠ none := by
+  induction ds with
+  | nil => intro _ _ _ c hc; cases hc
+  | cons d r ih =>
+    intro acc n h c hc
+    simp only [List.foldl] at h
+    cases acc with
+    | none => simp [stepS, foldS_none] at h
+    | some a =>
+      cases hv : Umya.Spec.Xml.hexVal d with
+      | none => simp [stepS, hv, foldS_none] at h
+      | some x =>
+        rcases List.mem_cons.1 hc with e | e
+        · subst e; simp [hv]
+        · exact ih _ _ h c e
+
+theorem hexVal_ws (c : Char) (h : Umya.Spec.Xml.hexVal c ≠ none) : wsMap c = c := by
+  unfold wsMap
+  split
+  · rename_i hc; rcases hc with e | e | e <;> subst e <;> exact absurd (by decide) h
+  · rfl
+
+theorem parseNum_no_ws (radix : Nat) (ds : List Char) (n : Nat) (h : parseNum radix ds = some n) :
+    ds.map wsMap = ds := by
+  rw [parseNum_eq] at h
+  by_cases he : ds.isEmpty
+  · simp [he] at h
+  · simp only [he] at h
+    have := foldS_some_hex radix ds _ _ h
+    calc ds.map wsMap = ds.map id := List.map_congr_left (fun c hc => hexVal_ws c (this c hc))
+      _ = ds := List.map_id ds
+
+/-- a reference the XML reader accepts contains no literal white space -/
+theorem resolveRef_no_ws (p v : List Char) (h : resolveRef p = some v) : p.map wsMap = p := by
+  unfold resolveRef at h
+  split at h
+  · rename_i hex
+    cases hp : parseNum 16 hex with
+    | none => simp [hp] at h
+    | some n => simp [wsMap, parseNum_no_ws 16 hex n hp]
+  · rename_i dec _
+    cases hp : parseNum 10 dec with
+    | none => simp [hp] at h
+    | some n => simp [wsMap, parseNum_no_ws 10 dec n hp]
+  · repeat' split at h
+    all_goals first | (rename_i e; subst e; decide) | cases h
+
+theorem wsMap_ne (c d : Char) (hd : d ≠ ' ') (h : c ≠ d) : wsMap c ≠ d := by
+  unfold wsMap; split
+  · exact fun e => hd e.symm
+  · exact h
+
+theorem wsMap_fix (d : Char) (h : d ≠ '\t' ∧ d ≠ '\n' ∧ d ≠ '\r') : wsMap d = d := by
+  unfold wsMap; rw [if_neg]; rintro (e | e | e)
+  · exact h.1 e
+  · exact h.2.1 e
+  · exact h.2.2 e
+
+/-- attribute-value normalisation commutes with reference expansion: mapping the literals while
+    expanding = mapping the raw text first (a reference that resolves contains no white space) -/
+theorem expand_ws (s : List Char) : ∀ (st : Option (List Char)) (v : List Char),
+    expandGo (fun c => [wsMap c]) st s = some v →
+    expandGo (fun c => [c]) (st.map (·.map wsMap)) (s.map wsMap) = some v := by
+  induction s with
+  | nil => intro st v h; cases st <;> simpa [expandGo] using h
+  | cons c r ih =>
+    intro st v h
+    cases st with
+    | none =>
+      simp only [expandGo, List.map_cons, Option.map_none] at h ⊢
+      by_cases hc : c = '&'
+      · subst hc
+        have : wsMap '&' = '&' := by decide
+        simp only [this, if_true] at h ⊢
+        exact ih (some []) v h
+      · have hw : wsMap c ≠ '&' := wsMap_ne c '&' (by decide) hc
+        simp only [hc, hw, if_false] at h ⊢
+        cases hr : expandGo (fun c => [wsMap c]) none r with
+        | none => simp [hr] at h
+        | some w =>
+          have := ih none w hr
+          simp only [Option.map_none] at this
+          simp [hr] at h
+          simp [this, h]
+    | some p =>
+      simp only [expandGo, List.map_cons, Option.map_some] at h ⊢
+      by_cases hc : c = ';'
+      · subst hc
+        have : wsMap ';' = ';' := by decide
+        simp only [this, if_true] at h ⊢
+        cases hp : resolveRef p.reverse with
+        | none => simp [hp] at h
+        | some x =>
+          have hmap : (p.map wsMap).reverse = p.reverse := by
+            rw [← List.map_reverse]; exact resolveRef_no_ws _ _ hp
+          simp only [hp, Option.bind_some] at h
+          rw [hmap, hp]; simp only [Option.bind_some]
+          cases hr : expandGo (fun c => [wsMap c]) none r with
+          | none => simp [hr] at h
+          | some w =>
+            have := ih none w hr
+            simp only [Option.map_none] at this
+            simp [hr] at h
+            simp [this, h]
+      · have hw : wsMap c ≠ ';' := wsMap_ne c ';' (by decide) hc
+        simp only [hc, hw, if_false] at h ⊢
+        by_cases hc2 : c = '&' ∨ c = '<'
+        · simp [hc2] at h
+        · have hw2 : ¬ (wsMap c = '&' ∨ wsMap c = '<') := by
+            rintro (e | e)
+            · exact wsMap_ne c '&' (by decide) (fun x => hc2 (Or.inl x)) e
+            · exact wsMap_ne c '<' (by decide) (fun x => hc2 (Or.inr x)) e
+          simp only [hc2, hw2, if_false] at h ⊢
+          exact ih (some (c :: p)) v h
+
+theorem attrLit_eq : (fun c : Char => if c = '\t' ∨ c = '\n' ∨ c = '\r' then [' '] else [c]) = fun c => [wsMap c] := by
+  funext c; unfold wsMap; split <;> rfl
+
 theorem normalizeEol_noCR (s : List Char) (h : '\r' ∉ s) : normalizeEol s = s := by
   induction s with
   | nil => rfl
